@@ -51,7 +51,7 @@ def describe(tier):
         "many-to-one maps, all-to-one}, read-back in {default dtype, int64, minimal explicit dtype, injective value mapping with negative targets "
         "(default dtype / int64)}. Row-scan family: 1-D N in {80,100} and 2-D (40,3),(60,2) with one dominant value and k in {4,5,6} other cells at every "
         "k-subset of 6 slots with distinct (and one duplicated) values, same options; line coverage confirms the row-scan branch ran. "
-        "Oracle: output == (mapped) input element-wise and in shape. Non-trivial: >= 2 distinct values present and at least one option not default. "
+        "Layout family: Fortran-ordered, strided, reversed and uint64 inputs and zero-column shapes. Oracle: output == (mapped) input element-wise and in shape. Non-trivial: >= 2 distinct values present and at least one option not default. "
         "Preconditions: an empty array needs a common value or a mapping." % (sh, [tuple(str(x) for x in e) for e in emb]),
         "bounds": {"embeddings": len(emb), "shapes": [list(s) for s in sh]},
         "exhaustive": True,
@@ -162,6 +162,41 @@ def run_one(arr, emb, common_sel, use_counts, map_kind, rb, in_minimal, acc, ext
     return True
 
 
+def run_layout(ea, arr_in, emb, cs, mk, rb, lname, acc):
+    """Like run_one, but the array handed to from_array is `arr_in` (same values as ea, different memory layout / dtype)."""
+    from catii.iindexes import iindex
+
+    mapping = make_mapping(mk, emb)
+    common = None if cs == "omit" else emb[cs]
+    case = {"array": ea.tolist(), "shape": list(ea.shape), "emb": [str(e) for e in emb], "common": cs, "counts": False, "mapping": mk, "readback": rb, "layout": lname}
+    before = numpy.array(arr_in, copy=True)
+    try:
+        idx = iindex.from_array(arr_in, common=common, mapping=dict(mapping) if mapping else None)
+    except Exception as e:  # noqa
+        acc.violation("from_array:raised", case, repr(e))
+        return True
+    if not numpy.array_equal(before, arr_in):
+        acc.violation("from_array:mutated-input", case, "input array changed")
+    expected = ea if mapping is None else numpy.vectorize(mapping.get, otypes=[object])(ea)
+    exp_list = numpy.asarray(expected).tolist()
+    kw = {}
+    if rb == "int64":
+        kw["dtype"] = numpy.int64
+    elif rb == "map":
+        uni = sorted(set(int(x) for x in numpy.asarray(expected).flat) | {int(idx.common)} | ({mapping[common] if mapping else common} if common is not None else set()))
+        m2 = {v: TARGETS[i % len(TARGETS)] + (i // len(TARGETS)) for i, v in enumerate(uni)}
+        kw["mapping"] = m2
+        exp_list = numpy.vectorize(m2.get, otypes=[object])(numpy.asarray(expected, dtype=object)).tolist()
+    try:
+        out = idx.to_array(**kw)
+    except Exception as e:  # noqa
+        acc.violation("to_array:raised", case, repr(e))
+        return True
+    if tuple(out.shape) != tuple(ea.shape) or out.tolist() != exp_list:
+        acc.violation("roundtrip:values", case, "got %r expected %r (index=%r)" % (out.tolist(), exp_list, idx))
+    return True
+
+
 def blocks(tier):
     emb = EMB_QUICK if tier == "quick" else EMB_THOROUGH
     sh = SHAPES_QUICK if tier == "quick" else SHAPES_THOROUGH
@@ -173,6 +208,8 @@ def blocks(tier):
             for a in range(0, n, step):
                 out.append(("small", {"shape": list(s), "ei": ei, "a0": a, "a1": min(n, a + step), "tier": tier}))
     out.append(("bincount-big", {"tier": tier}))
+    for ei in range(len(emb)):
+        out.append(("layout", {"tier": tier, "ei": ei}))
     for rs in rowscan_configs(tier):
         out.append(("rowscan", dict(rs, tier=tier)))
     return out
@@ -182,7 +219,8 @@ def blocks(tier):
 
 def rowscan_configs(tier):
     cfgs = []
-    shapes = [((80,), 4), ((100,), 4), ((100,), 5), ((40, 3), 5), ((40, 3), 6), ((60, 2), 6)]
+    # (79,)/(81,) and (39, 3) sit just on either side of the strategy threshold (5 values / 100 = 5% uncommon cells)
+    shapes = [((80,), 4), ((79,), 4), ((81,), 4), ((100,), 4), ((100,), 5), ((40, 3), 5), ((40, 3), 6), ((39, 3), 6), ((60, 2), 6)]
     if tier == "thorough":
         shapes += [((120,), 6), ((60, 2), 5)]
     embs = [(0, 1, 2, 3, 4, 5, 9), (-2, 255, 256, 70000, -70000, 2 ** 40, 11)]  # dominant, 5 others, absent
@@ -280,6 +318,41 @@ def run_block(family, p, acc):
                     nt = len(set(a.flat)) >= 2 and (cs != "omit" or uc or mk != "none" or rb != "default")
                     acc.case((shape, p["ei"], a.tobytes(), cs, uc, mk, rb, im), nontrivial=nt, outcome=(cs == 3, mk, rb),
                              sample=lambda: {"array": ea.tolist(), "common": cs, "counts": uc, "mapping": mk, "readback": rb, "input_minimal_dtype": im})
+        return
+    if family == "layout":
+        # memory layouts and unusual-but-integer input dtypes: Fortran order, strided views (every 2nd row / column of a larger
+        # array, reversed), uint64, plus zero-column shapes; default and a few non-default options
+        emb = (EMB_QUICK if tier == "quick" else EMB_THOROUGH)[p["ei"]]
+        lut = numpy.array(emb[:3], dtype=object)
+        shapes = [(3,), (4,), (2, 2), (3, 2), (2, 3)]
+        for shape in shapes:
+            for a in M.all_arrays(shape, range(3)):
+                ea = lut[a].astype(numpy.int64)
+                variants = []
+                if ea.ndim == 2:
+                    variants.append(("F", numpy.asfortranarray(ea)))
+                    big = numpy.full((ea.shape[0] * 2, ea.shape[1] * 2), emb[0], dtype=numpy.int64)
+                    big[::2, ::2] = ea
+                    variants.append(("strided", big[::2, ::2]))
+                    variants.append(("reversed", ea[::-1, ::-1][::-1, ::-1]))
+                    variants.append(("transposed-view", numpy.ascontiguousarray(ea.T).T))
+                else:
+                    big = numpy.full(ea.shape[0] * 3, emb[1], dtype=numpy.int64)
+                    big[::3] = ea
+                    variants.append(("strided", big[::3]))
+                    variants.append(("negative-stride", ea[::-1].copy()[::-1]))
+                if min(int(x) for x in ea.flat) >= 0:
+                    variants.append(("uint64", ea.astype(numpy.uint64)))
+                for lname, arr_in in variants:
+                    for cs, mk, rb in (("omit", "none", "default"), (1, "many1", "int64"), (3, "perm", "map")):
+                        if run_layout(ea, arr_in, emb, cs, mk, rb, lname, acc):
+                            acc.case(("layout", shape, p["ei"], a.tobytes(), lname, cs, mk, rb), nontrivial=len(set(a.flat)) >= 2, outcome=("layout", lname),
+                                     sample=lambda: {"array": ea.tolist(), "layout": lname, "common": cs, "mapping": mk, "readback": rb})
+        for shape in ((0, 0), (2, 0), (0, 2)):
+            z = numpy.zeros(shape, dtype=numpy.int64)
+            for cs in (0, 3):
+                if run_one(z, emb, cs, False, "none", "int64", False, acc):
+                    acc.case(("zero-cols", shape, p["ei"], cs), nontrivial=False, outcome=("zero-cols",), sample={"shape": list(shape), "common": cs})
         return
     if family == "bincount-big":
         # arrays whose values reach numpy.bincount with a large maximum (16 GiB virtual zero array at 2^31): a handful only
